@@ -147,45 +147,8 @@ def run():
         # regular or replaceable) is stored by thread A, paused at each point of the append / growth path, while thread B stores
         # several events that make the file grow more than once; every event B stored successfully, and the events stored
         # before, must read back whole by id and by offset afterwards, also after one more store
-        scen = []
-        ES_POINTS = ['es_store:start', 'es_store:padded', 'es_store:grow', 'es_store:grow_setlen', 'es_store:grow_resized', 'es_store:half_copied', 'es_store:appended']
-        for k in range(2 if Q else 20):
-            g = HistGen(rng, 'C04')
-            ab = Abs([])
-            x = g.new_event(kind=1, pk=AUTHORS[0], content=b'x' * rng.choice([5, 300]))
-            ab.store(x)
-            for akind in (20001, 1, 10002):
-                big = g.new_event(kind=akind, pk=AUTHORS[1], t=700, tags=[], content=b'B' * rng.choice([3000, 5000]))
-                bs = [g.new_event(kind=1, pk=AUTHORS[2], content=bytes([0x61 + i]) * rng.choice([1400, 1700, 2300])) for i in range(4)]
-                last = g.new_event(kind=1, pk=AUTHORS[0], content=b'l' * 900)
-                after = ['GID ' + hx(e['id']) for e in [x] + bs] + ['STO ' + ev_tok(last)] + ['GID ' + hx(e['id']) for e in [x] + bs + [last]]
-                for p in ES_POINTS:
-                    scen.append(dict(pre=['STO ' + ev_tok(x)], point=p, a='STO ' + ev_tok(big), b='SEQ ' + ' ;; '.join('STO ' + ev_tok(e) for e in bs),
-                                     after=after, evs=[x] + bs, last=last, akind=akind))
-        for s_, r in zip(scen, forced(c, base, scen, tag='g')):
-            if 'error' in r or 'HUNG' in r.get('raw', '') or 'panic' in r.get('raw', ''):
-                c.violation('oracle', 'forced schedule (growth) did not complete: %s' % (r.get('error') or r['raw'])[:90], r['lines'])
-                continue
-            c.count('growth_race:%d:%s:%s' % (s_['akind'], s_['point'], 'reached' if r['reached'] else 'not-reached'))
-            n = len(s_['evs'])
-            first, lastr, second = r['after'][:n], r['after'][n], r['after'][n + 1:]
-            brep = r['rb'].split(' ;; ') if ' ;; ' in r['rb'] else [r['rb']]
-            bad = None
-            for i, e in enumerate(s_['evs']):
-                stored = True if i == 0 else (i - 1 < len(brep) and brep[i - 1].strip().startswith('ok'))
-                if not stored:
-                    continue
-                want = 'some ' + encode_event(e).hex()
-                if first[i] != want or second[i] != want:
-                    bad = 'event %s, stored successfully, does not read back whole after another thread\'s store went through the growth step (paused at %s): %s' % (
-                        hx(e['id'])[:8], s_['point'], (first[i] if first[i] != want else second[i])[:30])
-                    break
-            if bad is None and lastr.startswith('ok') and second[n] != 'some ' + encode_event(s_['last']).hex():
-                bad = 'an event stored after the race does not read back whole'
-            if bad:
-                c.violation('oracle', bad, r['lines'])
-                continue
-            c.nontriv(('growth', s_['akind'], s_['point'], k))
+        from ..conc import growth_step_races
+        growth_step_races(c, base)
         c.sample({'history': [l[:80] for l in lines[:6]], 'replies': [o[:60] for o in out[:6]]})
     finally:
         shutil.rmtree(base, ignore_errors=True)
